@@ -372,6 +372,8 @@ def walk_trie(ctx: Ctx, p, model, only_word=None):
 
 D_CHOICES = [1e-3, 1e-3, 0.5, 1.0, 0.25, 0.0, -0.5, 1e-6, 2.0 ** -10, 3.0]
 TOL_CHOICES = [1e-5, 1e-5, 0.0, -1.0, 2.0 ** -10, 1.0, 1e3, -1e9]
+EXTREME = {"float64": [5e-324, 1e-310, 1e-300, 1e-150, 1e150, 1e300, 1.7e308],
+           "float32": [1.4e-45, 1e-40, 1e-38, 1e-20, 1e20, 1e38, 3.4e38]}
 LADDER = [1e-30, 1e-12, 1e-7, 1e-5, 2.0 ** -10, 1e-3, 0.1, 0.5, 1.0, 2.0, 3.0, 10.0, 1e3, 1e6, 1e12]
 
 
@@ -384,7 +386,7 @@ def representable(fr: Fraction, dtype: str):
     return x if (math.isfinite(x) and Fraction(x) == fr) else None
 
 
-def gen_value(rng, l, D, TOL, dtype, is_int):
+def gen_value(rng, l, D, TOL, dtype, is_int, extreme=False):
     """one loss element given the previous value l (None = +inf)"""
     if is_int:
         if l is None or l == 0 or rng.random() < 0.25:
@@ -421,68 +423,161 @@ def gen_value(rng, l, D, TOL, dtype, is_int):
     elif m < 0.82:
         x = -abs(l) * rng.choice([0.5, 1.0, 2.0, 0.999])
     else:
-        x = rng.choice(LADDER) * rng.choice([1.0, 1.0, 1.0, 1.7, 0.3]) * (-1 if rng.random() < 0.15 else 1)
+        x = rng.choice(EXTREME[dtype] if (extreme and rng.random() < 0.5) else LADDER) * rng.choice([1.0, 1.0, 1.0, 1.7, 0.3]) * (-1 if rng.random() < 0.15 else 1)
     x = U.rnd(x, dtype)
     if not math.isfinite(x):
         x = 1.0
     return x + 0.0 if x != 0 else 0.0   # no -0.0
 
 
-def gen_rtb_case(ctx: Ctx, n_max, force=None):
-    rng = ctx.rng
-    vkind = force or rng.choice(["pyfloat", "pyint", "t0d", "t0d", "batch", "batch", "batch"])
+SHAPES = [[1], [2], [3], [4], [2, 2], [1, 3], [3, 1], [2, 1, 2], [5], [3, 2]]
+LAYOUTS = ["fresh", "fresh", "fresh", "slice", "strided", "expanded"]
+STATE_KEYS = {"steps", "patience_count", "_continual", "last"}
+ALIAS_SITE = "pypose/utils/stepper.py:ReduceToBason.step"
+
+
+def alias_matcher(kf, case) -> bool:
+    """recognises exactly the aliasing defect of ReduceToBason.step (`self.last = loss` keeps a reference): the
+    caller delivered consecutive losses through ONE tensor updated in place and the deviation from the documented
+    behaviour is exactly what `last is loss` predicts."""
+    return (kf.get("property") == "C20" and "ReduceToBason.step" in str(kf.get("site", ""))
+            and "alias" in str(kf.get("predicate", "")).lower()
+            and case.get("site") == ALIAS_SITE and int(case.get("reused_buffer_steps", 0)) > 0
+            and case.get("only_alias_explained") is True)
+
+
+def draw_segcfg(rng, allow_int=True):
+    vkind = rng.choice(["pyfloat", "t0d", "t0d", "batch", "batch", "batch"] + (["pyint"] if allow_int else []))
     dtype = "float32" if vkind in ("pyfloat", "pyint") else rng.choice(["float64", "float32"])
-    shape = []
-    if vkind == "batch":
-        shape = rng.choice([[1], [2], [3], [4], [2, 2], [1, 3], [3, 1], [2, 1, 2]])
-    B = int(math.prod(shape)) if shape else 1
+    shape = rng.choice(SHAPES) if vkind == "batch" else []
+    return {"vkind": vkind, "dtype": dtype, "shape": shape}
+
+
+def gen_rtb_case(ctx: Ctx, n_max, force=None, long=False):
+    rng = ctx.rng
+    varying = rng.random() < 0.35 and not force          # per-segment (after reset) kind / dtype / shape
+    seg = draw_segcfg(rng, allow_int=not varying)
+    if force:
+        seg["vkind"] = force
     d = rng.choice(D_CHOICES)
     tol = rng.choice(TOL_CHOICES)
-    D, TOL = U.rnd(d, dtype), U.rnd(tol, dtype)
-    if vkind == "pyint":
-        D, TOL = U.rnd(rng.choice([0.5, 1.0, 0.25, 1e-3, 0.0]), dtype), U.rnd(rng.choice([1e-5, 1.0, 3.0, -1.0]), dtype)
+    if varying:
+        d, tol = U.rnd(d, "float32"), U.rnd(tol, "float32")   # the same effective threshold in every dtype
+    D, TOL = U.rnd(d, seg["dtype"]), U.rnd(tol, seg["dtype"])
+    if seg["vkind"] == "pyint":
+        D, TOL = U.rnd(rng.choice([0.5, 1.0, 0.25, 1e-3, 0.0]), "float32"), U.rnd(rng.choice([1e-5, 1.0, 3.0, -1.0]), "float32")
         d, tol = D, TOL
-    steps = rng.choice([1, 2, 3, 4, 5, 6, 8, 10, 15, 30, 200, 0])
-    patience = rng.choice([1, 2, 2, 3, 3, 4, 5, 6, 0])
-    n = rng.randint(1, n_max)
-    p_reset = rng.choice([0.0, 0.04, 0.12])
+    steps = rng.choice([1, 2, 3, 4, 5, 6, 8, 10, 15, 30, 200, 0, 10 ** 9, 2 ** 40])
+    patience = rng.choice([1, 2, 2, 3, 3, 4, 5, 6, 0, 10 ** 6])
+    if long:
+        steps, patience = rng.choice([10 ** 9, 2 ** 40, n_max - 3]), rng.choice([10 ** 6, 130, 257, n_max // 2])
+    n = rng.randint(n_max // 2, n_max) if long else rng.randint(1, n_max)
+    p_reset = 0.004 if long else (rng.choice([0.05, 0.12, 0.2]) if varying else rng.choice([0.0, 0.04, 0.12]))
+    reuse = rng.random() < 0.12 and not long                 # losses delivered through one in-place updated buffer
+    itemwise = rng.random() < 0.2 and not long
+    extreme = rng.random() < 0.15
     events, last, skipped = [], None, 0
     coordinated = rng.random() < 0.5
+    first_seg = dict(seg)
+    B = int(math.prod(seg["shape"])) if seg["shape"] else 1
     for _ in range(n):
         if events and rng.random() < p_reset:
-            events.append(["R"])
+            if varying and rng.random() < 0.7:
+                seg = draw_segcfg(rng, allow_int=False)
+                B = int(math.prod(seg["shape"])) if seg["shape"] else 1
+                events.append(["R", dict(seg)])
+            else:
+                events.append(["R"])
             last = None
             continue
+        dtype = seg["dtype"]
         for attempt in range(6):
             if attempt == 5:
                 vals = list(last) if last is not None else [1.0] * B
+            elif long and last is not None and rng.random() < 0.9:
+                # long plateaus / slow decreases so that counters really grow
+                f = rng.choice([1.0, 1.0, 1.0, 0.5, 0.999])
+                vals = [U.rnd(x * f, dtype) for x in last]
             elif coordinated and B > 1 and rng.random() < 0.6:
-                s = rng.randrange(1 << 30)
+                s_ = rng.randrange(1 << 30)
                 import random as _r
-                vals = [gen_value(_r.Random(s), None if last is None else last[i], D, TOL, dtype, vkind == "pyint")
+                vals = [gen_value(_r.Random(s_), None if last is None else last[i], D, TOL, dtype, seg["vkind"] == "pyint", extreme)
                         for i in range(B)]
             else:
-                vals = [gen_value(rng, None if last is None else last[i], D, TOL, dtype, vkind == "pyint")
+                vals = [gen_value(rng, None if last is None else last[i], D, TOL, dtype, seg["vkind"] == "pyint", extreme)
                         for i in range(B)]
             _, _, amb = U.rtb_obs_exact(last, vals, D, TOL, dtype)
             if not amb:
                 break
             skipped += 1
-        events.append(["S", vals])
+        layout = "reuse" if (reuse and seg["vkind"] in ("t0d", "batch")) else rng.choice(LAYOUTS)
+        events.append(["S", vals, layout])
         last = vals
     ctx.count("num.rtb.regenerated_near_threshold", skipped)
     return {"kind": "num.rtb", "steps": steps, "patience": patience, "d": d, "tol": tol, "D": D, "TOL": TOL,
-            "vkind": vkind, "dtype": dtype, "shape": shape, "events": events}
+            "vkind": first_seg["vkind"], "dtype": first_seg["dtype"], "shape": first_seg["shape"], "itemwise": itemwise,
+            "events": events}
 
 
-def loss_object(case, vals):
-    vk = case["vkind"]
-    if vk == "pyfloat":
-        return float(vals[0])
-    if vk == "pyint":
-        return int(vals[0])
-    t = torch.tensor(vals, dtype=U.TD[case["dtype"]])
-    return t.reshape(case["shape"]) if vk == "batch" else t.reshape(())
+class LossFeeder:
+    """builds the object handed to stepper.step for one segment: python number, fresh tensor, slice of a larger
+    buffer, non-contiguous view, expanded tensor, or ONE buffer updated in place; remembers what it handed out so
+    that purity (bit-for-bit, and the storage around a view) can be checked later."""
+
+    def __init__(self, seg):
+        self.seg, self.buf, self.kept = seg, None, []
+
+    def make(self, vals, layout):
+        vk, dt, shape = self.seg["vkind"], U.TD[self.seg["dtype"]], tuple(self.seg["shape"])
+        if vk == "pyfloat":
+            return float(vals[0])
+        if vk == "pyint":
+            return int(vals[0])
+        t = torch.tensor(vals, dtype=dt).reshape(shape if vk == "batch" else ())
+        if layout == "reuse":
+            if self.buf is None:
+                self.buf = t.clone()
+            else:
+                self.buf.copy_(t)
+            return self.buf
+        guard = None
+        if layout == "slice":
+            big = torch.full((t.numel() + 5,), 7.25, dtype=dt)
+            big[2:2 + t.numel()] = t.flatten()
+            v = big[2:2 + t.numel()].view(t.shape)
+            guard = (big, big.clone())
+        elif layout == "strided":
+            if t.dim() >= 2:
+                perm = list(range(t.dim()))[::-1]
+                v = t.permute(perm).contiguous().permute(perm)
+            else:
+                big = torch.full((2 * t.numel() + 3,), -3.5, dtype=dt)
+                big[1:1 + 2 * t.numel():2] = t.flatten()
+                v = big[1:1 + 2 * t.numel():2].view(t.shape) if t.dim() == 1 else big[1]
+                guard = (big, big.clone())
+        elif layout == "expanded" and len(set(vals)) == 1:
+            v = torch.tensor(vals[0], dtype=dt).expand(t.shape)
+        else:
+            v = t
+        self.kept.append((v, t.clone(), guard))
+        return v
+
+    def impure(self):
+        """first tensor handed out earlier that no longer holds its values (or whose surrounding storage changed)"""
+        for i, (v, want, guard) in enumerate(self.kept):
+            if v.shape != want.shape or not torch.equal(v, want):
+                return f"loss tensor #{i} handed to step() was modified: {U.flat(v)[:4]} != {U.flat(want)[:4]}"
+            if guard is not None and not torch.equal(guard[0], guard[1]):
+                return f"storage around the loss view #{i} was modified"
+        return None
+
+
+def loss_object(case, vals):   # kept for replay files written before the hardening pass
+    return LossFeeder({"vkind": case["vkind"], "dtype": case["dtype"], "shape": case["shape"]}).make(vals, "fresh")
+
+
+def fingerprint(ctl):
+    return {k: repr(v) for k, v in ctl.__dict__.items() if k not in STATE_KEYS and k not in ("optimizer", "continual")}
 
 
 def spec_trace_segment(kind, steps, patience, obs, pc0=0):
@@ -503,14 +598,22 @@ def check_rtb_num(ctx: Ctx, case, model_reply=None) -> bool:
     try:
         st = pp().utils.ReduceToBason(steps=case["steps"], patience=case["patience"], decreasing=case["d"],
                                       tol=case["tol"])
+        fp0 = fingerprint(st)
     except Exception as e:
         ctx.fail(case, f"raises: constructor {type(e).__name__}: {e}")
         return False
-    D, TOL, dtype = case["D"], case["TOL"], case["dtype"]
+    seg = {"vkind": case["vkind"], "dtype": case["dtype"], "shape": case["shape"]}
+    feeder = LossFeeder(seg)
     real, obs_all = [], []
-    segs = [{"pc0": 0, "obs": [], "codes": [], "start": 0}]
-    last = None
+    segs = [{"obs": [], "alias_obs": [], "codes": [], "reused": 0, "cfg": dict(seg)}]
+    last, prev_layout, singles = None, None, None
+    model_ok = True
     for ei, ev in enumerate(case["events"]):
+        D, TOL, dtype = U.rnd(case["d"], seg["dtype"]), U.rnd(case["tol"], seg["dtype"]), seg["dtype"]
+        if seg["vkind"] == "pyint":
+            D, TOL = case["D"], case["TOL"]
+        if (D, TOL) != (case["D"], case["TOL"]):
+            model_ok = False   # effective thresholds differ between dtypes: the single-threshold model line does not apply
         try:
             if ev[0] == "R":
                 pc_before = st.patience_count
@@ -522,26 +625,54 @@ def check_rtb_num(ctx: Ctx, case, model_reply=None) -> bool:
                     ctx.fail(dict(case, event=ei), f"reset-state: after reset() steps={s_} patience_count={pc_} (was "
                                                    f"{pc_before}) continual={c_} last={ctx_last(st)} (initial state: 0, 0, True, inf)")
                     ok = False
-                segs.append({"pc0": pc_, "obs": [], "codes": [], "start": ei + 1})
-                last = None
+                if len(ev) > 1 and ev[1]:
+                    seg = dict(ev[1])
+                bad = feeder.impure()
+                if bad:
+                    ctx.fail(dict(case, event=ei), "purity: " + bad)
+                    ok = False
+                feeder = LossFeeder(seg)
+                segs.append({"obs": [], "alias_obs": [], "codes": [], "reused": 0, "cfg": dict(seg)})
+                last, prev_layout, singles = None, None, None
                 obs_all.append(None)
             else:
-                st.step(loss_object(case, ev[1]))
+                layout = ev[2] if len(ev) > 2 else "fresh"
+                pc_prev = st.patience_count
+                st.step(feeder.make(ev[1], layout))
                 code = U.ctl_code(st)
                 nd, bl, _ = U.rtb_obs_exact(last, ev[1], D, TOL, dtype)
+                aliased = layout == "reuse" and prev_layout == "reuse"
+                and_, _, _ = U.rtb_obs_exact(ev[1] if aliased else last, ev[1], D, TOL, dtype)
                 segs[-1]["obs"].append((nd, bl, False))
+                segs[-1]["alias_obs"].append((and_, bl, False))
+                segs[-1]["reused"] += int(aliased)
                 segs[-1]["codes"].append(code)
                 obs_all.append((nd, bl))
                 got_last = U.flat(st.last)
                 if got_last != [float(v) for v in ev[1]]:
                     ctx.fail(dict(case, event=ei), f"last: after step(loss) stepper.last={got_last[:4]} loss={ev[1][:4]}")
                     ok = False
-                last = ev[1]
+                if case.get("itemwise") and seg["vkind"] == "batch":
+                    ok = itemwise_oracle(ctx, dict(case, event=ei), seg, ev[1], last, (nd, bl), singles,
+                                         st.patience_count == pc_prev + 1 and not aliased, aliased) and ok
+                    singles = singles or []
+                last, prev_layout = ev[1], layout
             real.append(code)
+            if fingerprint(st) != fp0:
+                ctx.fail(dict(case, event=ei), f"attributes: {ev[0]} changed non-state attributes of the stepper: "
+                                               f"{fp0} -> {fingerprint(st)}")
+                ok = False
+                fp0 = fingerprint(st)
         except Exception as e:
-            ctx.fail(dict(case, event=ei), f"raises: event {ev[0]} raised {type(e).__name__}: {str(e)[:120]}")
+            ctx.fail(dict(case, event=ei), f"raises: event {ev[0]} ({seg['vkind']} {seg['dtype']} {seg['shape']}, layout "
+                                           f"{ev[2] if len(ev) > 2 else '-'}) raised {type(e).__name__}: {str(e)[:120]}")
             return False
+    bad = feeder.impure()
+    if bad:
+        ctx.fail(case, "purity: " + bad)
+        ok = False
     # the property's statement per segment
+    spec_ok = True
     for si, sg in enumerate(segs):
         fresh = spec_trace_segment("rtb", case["steps"], case["patience"], sg["obs"], 0)
         fs = U.spec_first_stop("rtb", case["steps"], case["patience"], sg["obs"])
@@ -551,23 +682,30 @@ def check_rtb_num(ctx: Ctx, case, model_reply=None) -> bool:
         steps_ok = all(U.st_decode(c)[0] == i + 1 for i, c in enumerate(sg["codes"]))
         if got == fresh and steps_ok:
             continue
-        ok = False
+        ok = spec_ok = False
         j = next((i for i, (a, b) in enumerate(zip(got, fresh)) if a != b), 0)
-        what = (f"segment {si} (after {'reset' if si else 'construction'}), step {j + 1}: (continual, patience_count)="
-                f"{got[j] if got else None}, a fresh controller per the documented causes gives {fresh[j] if fresh else None}")
-        ctx.fail(dict(case, segment=si), ("reset-behaviour: " if si else "continual: ") + what)
-    case_model = model_reply
-    if case_model is not None:
-        st_, toks = common.parse_reply(case_model)
+        what = (f"segment {si} (after {'reset' if si else 'construction'}; {sg['cfg']['vkind']} {sg['cfg']['dtype']} "
+                f"{sg['cfg']['shape']}), step {j + 1}: (continual, patience_count)={got[j] if got else None}, a fresh "
+                f"controller per the documented causes gives {fresh[j] if fresh else None}")
+        alias = spec_trace_segment("rtb", case["steps"], case["patience"], sg["alias_obs"], 0)
+        if sg["reused"] > 0 and got == alias and steps_ok:
+            ctx.fail(dict(case, segment=si, site=ALIAS_SITE, reused_buffer_steps=sg["reused"], only_alias_explained=True),
+                     "alias: the losses were delivered through one tensor updated in place; stepper.last is that same "
+                     "tensor, so (last - loss) is always 0; " + what, known_matcher=alias_matcher)
+        else:
+            ctx.fail(dict(case, segment=si), ("reset-behaviour: " if si else "continual: ") + what)
+    has_reuse = any(sg["reused"] for sg in segs)
+    if model_reply is not None and model_ok and (spec_ok or not has_reuse):
+        st_, toks = common.parse_reply(model_reply)
         want = [int(t) for t in toks] if st_ == "ok" else []
         if len(want) != 3 * len(real):
-            ctx.disagree("num.rtb", case, f"model reply {case_model[:80]}")
+            ctx.disagree("num.rtb", case, f"model reply {model_reply[:80]}")
             return False
         for ei, code in enumerate(real):
             w, wnd, wbl = want[3 * ei:3 * ei + 3]
             if w != code:
                 ctx.disagree("num.rtb", dict(case, event=ei), f"event {ei} ({case['events'][ei][0]}): implementation "
-                             f"{U.st_decode(code)} model {U.st_decode(w)} [{case['vkind']} {dtype} {case['shape']}]")
+                             f"{U.st_decode(code)} model {U.st_decode(w)}")
                 ok = False
                 break
             if obs_all[ei] is not None and (bool(wnd), bool(wbl)) != obs_all[ei]:
@@ -578,12 +716,40 @@ def check_rtb_num(ctx: Ctx, case, model_reply=None) -> bool:
     return ok
 
 
+_SINGLES = {}
+
+
+def itemwise_oracle(ctx, case, seg, vals, last, batch_obs, singles, batch_pc_inc, aliased) -> bool:
+    """mixed-regime law on the real code: the batched decision is the conjunction of the decisions the same class
+    takes on each element alone (fresh single-element steppers fed the element's own previous value)."""
+    dt = U.TD[seg["dtype"]]
+    nds, bls = [], []
+    for i, x in enumerate(vals):
+        one = pp().utils.ReduceToBason(steps=10 ** 9, patience=10 ** 9, decreasing=case["d"], tol=case["tol"])
+        if last is not None:
+            one.step(torch.tensor([last[i]], dtype=dt))
+            one._continual = True
+        pc0 = one.patience_count
+        one.step(torch.tensor([x], dtype=dt))
+        nds.append(one.patience_count == pc0 + 1)
+        bls.append(not one.continual())
+    ok = True
+    if (all(nds), all(bls)) != tuple(batch_obs):
+        ctx.fail(case, f"itemwise: element-wise decisions of single steppers (nodec, below)={list(zip(nds, bls))} do not give "
+                       f"the documented batch decision {batch_obs} for losses {vals[:6]} after {None if last is None else last[:6]}")
+        ok = False
+    if not aliased and batch_pc_inc != all(nds):
+        ctx.fail(case, f"itemwise: batched step counted a non-decrease={batch_pc_inc} but the per-element steppers say "
+                       f"{nds} (losses {vals[:6]} after {None if last is None else last[:6]})")
+        ok = False
+    return ok
+
+
 def rtb_num_line(case):
-    B = int(math.prod(case["shape"])) if case["shape"] else 1
     toks = []
     for ev in case["events"]:
-        toks.append("R" if ev[0] == "R" else "S " + common.wire_list(ev[1]))
-    return (f"c20.rtb.num {case['steps']} {case['patience']} {to_wire(case['D'])} {to_wire(case['TOL'])} {B} "
+        toks.append("R" if ev[0] == "R" else f"S {len(ev[1])} " + common.wire_list(ev[1]))
+    return (f"c20.rtb.num {case['steps']} {case['patience']} {to_wire(case['D'])} {to_wire(case['TOL'])} "
             + " ".join(toks))
 
 
